@@ -49,7 +49,7 @@ def _gen_worker(task):
     faulthandler.dump_traceback_later(240, repeat=True)
     run = _RUN
     c = dsl.CONTRACTS[key]
-    out = {'function': None, 'obligations': [], 'covers': [], 'undecided': [], 'used_axioms': [], 'sf_axioms': [], 'paths': 0, 'fchecks': 0}
+    out = {'function': None, 'obligations': [], 'covers': [], 'undecided': [], 'used_axioms': [], 'sf_axioms': [], 'paths': 0, 'fchecks': 0, 'traces': None}
     w = run.world(twin)
     ex = Executor(run.sources, twin, w)
     t0 = time.time()
@@ -66,6 +66,7 @@ def _gen_worker(task):
                            'line': fn.lineno, 'source_hash': source.func_source_hash(fn), 'paths': ex.stats['paths'],
                            'obligation_queries': len(obs), 'gen_seconds': round(time.time() - t0, 3)}
         out['paths'] = ex.stats['paths']
+        out['traces'] = (c.key, twin, repr(sorted(variant.items())), sorted(ex.path_traces))
         out['fchecks'] = ex.stats['feasibility_checks']
     except Unsupported as e:
         out['undecided'].append(('%s[%s]' % (c.key, twin), 'unsupported: %s' % e))
@@ -95,6 +96,7 @@ class Run(object):
         self.used_axioms = set()
         self.sf_axioms = set()
         self.stats = {'paths': 0, 'feasibility_checks': 0}
+        self.traces = []            # (contract key, twin, variant, sorted call skeletons of all paths)
 
     def world(self, twin):
         if twin not in self.worlds:
@@ -149,6 +151,8 @@ class Run(object):
             self.used_axioms.update(out['used_axioms'])
             self.sf_axioms.update(out['sf_axioms'])
             self.stats['paths'] += out['paths']
+            if out.get('traces'):
+                self.traces.append(out['traces'])
             self.stats['feasibility_checks'] += out['fchecks']
 
     def lemmas(self):
